@@ -27,7 +27,9 @@ LEVEL = "exploration"
 RULE = ("one run = one shuffle of a random CNF (0..8 variables, 0..12 "
         "clauses incl. empty clauses, repeated/opposite literals, unused "
         "variables; 12% of the runs 10..25 variables and 10..30 clauses) through Shuffle(), 'cnfgen dimacs f -T shuffle' or "
-        "cnfshuffle (file or stdin), each of the three components fixed / "
+        "cnfshuffle (file or stdin; the input file in a drawn legal layout: "
+        "wrapped clauses, several clauses per line, comments, indentation), "
+        "each of the three components fixed / "
         "random / explicit (valid or invalid), on a fair or adversarial "
         "PRNG; the witness is read from the PRNG transcript. Non-trivial: "
         "N >= 2, M >= 2 and at least one component random or explicit; "
